@@ -148,6 +148,60 @@ def lineOf (p : Pair) : Bytes := p.1 ++ [58] ++ p.2 ++ [13, 10]
 def sameTrailers (a b : List Pair) : Bool :=
   (a ++ b).all (fun p => TMap.getAll p.1 a == TMap.getAll p.1 b)
 
+/-! ### frame structure alone (C17: what counts as a truncated / malformed body) -/
+
+/-- one frame on the wire, any flag -/
+def rawFrame (flag : UInt8) (p : Bytes) : Bytes := flag :: u32be p.length ++ p
+
+def flagOk (fl : UInt8) : Prop := fl = 0 ∨ fl = 1 ∨ fl = 128
+
+/-- The body is a sequence of complete frames with known flags — i.e. it is NOT cut off inside
+a frame (header or payload) and carries no unknown frame type. -/
+def WellFramed (body : Bytes) : Prop :=
+  ∃ items : List (UInt8 × Bytes),
+    (∀ i ∈ items, flagOk i.1 ∧ i.2.length < 4294967296) ∧
+    body = items.flatMap (fun i => rawFrame i.1 i.2)
+
+/-- decision procedure for `WellFramed` (used by the driver's verdict); fuel as in `parseItems`. -/
+def frameStructureAux : Nat → Bytes → Option (List (UInt8 × Bytes))
+  | 0, _ => none
+  | _ + 1, [] => some []
+  | n + 1, fl :: a :: b :: c :: d :: rest =>
+    let len := readU32 a b c d
+    if rest.length < len then none
+    else if fl = 0 ∨ fl = 1 ∨ fl = 128 then
+      match frameStructureAux n (rest.drop len) with
+      | some is => some ((fl, rest.take len) :: is)
+      | none => none
+    else none
+  | _ + 1, _ => none
+
+def frameStructure (b : Bytes) : Option (List (UInt8 × Bytes)) := frameStructureAux (b.length + 1) b
+
+/-! ### field syntax (RFC 9110 §5.1, §5.5) -/
+
+/-- `tchar` -/
+def tchar (b : UInt8) : Bool :=
+  let n := b.toNat
+  (48 ≤ n && n ≤ 57) || (65 ≤ n && n ≤ 90) || (97 ≤ n && n ≤ 122) ||
+  (str "!#$%&'*+-.^_`|~").contains b
+
+def fieldNameOk (n : Bytes) : Bool := !n.isEmpty && n.all tchar
+
+/-- field-vchar / SP / HTAB / obs-text -/
+def fieldValueOk (v : Bytes) : Bool :=
+  v.all (fun b => (b.toNat ≥ 32 && b.toNat != 127) || b.toNat == 9)
+
+def isOws (b : UInt8) : Bool := b == 32 || b == 9
+
+/-- a field value without surrounding optional whitespace -/
+def owsTrim (v : Bytes) : Bytes := ((v.dropWhile isOws).reverse.dropWhile isOws).reverse
+
+/-- field names are case-insensitive; lower case is the canonical form -/
+def lowerName (n : Bytes) : Bytes := n.map Ascii.toLower
+
+def normPairs (ps : List Pair) : List Pair := ps.map (fun p => (lowerName p.1, owsTrim p.2))
+
 /-! ### Which requests are grpc-web requests (PROTOCOL-WEB.md content types) -/
 
 /-- `some text?` iff `ct` is `application/grpc-web[-text][+proto]`. -/
